@@ -31,6 +31,14 @@ var c02Faults = []struct {
 	{"missing_interface", "missing from its interface", 1, 5},
 	{"undecorated_input", "without BuiltIn or Location", 1, 5},
 	{"recursion", "recursion in the static call graph", 2, 3},
+	// function types: OpFunction / OpFunctionParameter / OpFunctionCall against the OpTypeFunction, and its uniqueness
+	{"param_type_mismatch", "parameter type differs from the function type", 2, 1},
+	{"missing_param", "fewer OpFunctionParameter than the function type has parameters", 2, 1},
+	{"extra_param", "more OpFunctionParameter than the function type has parameters", 2, 1},
+	{"call_arg_mismatch", "argument type differs from the parameter type", 2, 1},
+	{"call_arg_count", "argument count differs from the callee's parameter count", 2, 1},
+	{"fn_ret_mismatch", "result type must be the function type's return type", 2, 1},
+	{"dup_fn_type", "duplicate declaration of a non-aggregate type", 1, 3},
 }
 
 func c02EmitCfg(fns, blocks int, faults string, invs ...string) string {
@@ -38,7 +46,7 @@ func c02EmitCfg(fns, blocks int, faults string, invs ...string) string {
 }
 
 // c02SelfTest model-checks the specification itself on every invocation (SpvEmit.tla):
-//   - one run with Faults = all 14 faults: every behaviour picks one fault or none; fault-free emissions (all control-flow
+//   - one run with Faults = all 21 faults: every behaviour picks one fault or none; fault-free emissions (all control-flow
 //     shapes and block orders of 1 function x 5 blocks) are never rejected (NoBad), no deviating module is accepted
 //     (Caught), and every fault is rejected by the rule meant for it (RejectPrint lines);
 //   - thorough: larger fault-free spaces ((1,6), (2,4), (3,3): several functions, forward calls) and, per fault, a run
